@@ -127,6 +127,14 @@ def step (s : ItsS) (t : List String) (implObs : String) : ItsS × StepOut :=
     | some a, some n, some sy, some d =>
       (putTok s a { sacTok n sy with kind := .custom, decimals := d }, ⟨"ok", "ok", none⟩)
     | _, _, _, _ => bad s "ctok.new"
+  | ["ctok.break", a, _mode] =>
+    -- the token's `decimals()` cannot be read any more (it traps, or answers with something that is no u32): for the model that
+    -- is a token whose decimals are not representable — every operation that needs them is refused
+    match parseAddr a with
+    | some a => match getTok s a with
+      | some t => (putTok s a { t with decimals := 2 ^ 40 }, ⟨"ok", "ok", none⟩)
+      | none => bad s "ctok.break"
+    | none => bad s "ctok.break"
   | ["ctok.shifty", _, _, _, _] =>
     -- the token starts giving OTHER answers on re-reading; the token the model knows is what a first read returns
     (s, ⟨"ok", "ok", none⟩)
